@@ -116,6 +116,19 @@ pub fn gen_batches(r: &mut Rng, len: usize) -> Vec<Value> {
         let n = 1 + r.below(4);
         now += r.below(3) as u64;
         let mut reqs = vec![];
+        if META_FOCUS.with(|c| c.get()) && r.chance(1, 5) {
+            // what a garbage-collection run sees around the removal of a document: the hash list, the document dropped (twice:
+            // a second handle may be open), the hash list again - with no write in between
+            let d = 1 + r.below(NDOCS);
+            for op in ["Hashes", "Drop", "Drop", "Hashes", "GetPolicy"] {
+                let mut q = req(op, d);
+                q["now"] = json!(now);
+                reqs.push(q);
+            }
+            t += reqs.len();
+            out.push(json!({"now": now, "reqs": reqs}));
+            continue;
+        }
         for _ in 0..n {
             let d = 1 + r.below(NDOCS);
             let mut x = r.below(100);
